@@ -136,6 +136,16 @@ def _work(item):
     return pidx, sec, frontier
 
 
+def _init_worker():
+    # die with the parent (no orphaned pools when a check is interrupted)
+    try:
+        import ctypes
+        import signal
+        ctypes.CDLL('libc.so.6').prctl(1, signal.SIGKILL)
+    except Exception:
+        pass
+
+
 def explore_parallel(name, factory, params, signature=None, max_paths=None, chunk=400, seed=0,
                      validate=True, query_timeout_ms=20000, deadline_s=None, nproc=None, backend='z3'):
     """Explore body=factory(param) for every param; split the decision trees dynamically
@@ -149,7 +159,7 @@ def explore_parallel(name, factory, params, signature=None, max_paths=None, chun
     pending = set()
     queue = [(key, i, [], chunk, seed, validate, query_timeout_ms, backend) for i in range(len(params))]
     queue.reverse()
-    with cf.ProcessPoolExecutor(max_workers=nproc, mp_context=ctx) as pool:
+    with cf.ProcessPoolExecutor(max_workers=nproc, mp_context=ctx, initializer=_init_worker) as pool:
         def budget_left():
             if max_paths is not None and total.paths >= max_paths:
                 return False
